@@ -233,6 +233,13 @@ pub fn corpus() -> Vec<(String, Vec<u8>)> {
             add(&format!("publish-multi-{n}-q{q}"), SPacket::Publish(rc::Publish { dup: false, qos: q, retain: false, topic: "m".into(), id: if q > 0 { Some(20) } else { None }, props: ids.iter().map(|i| Prop::var(11, *i)).collect(), payload: b"mm".to_vec() }));
         }
     }
+    // one identifier per matching subscription of this client: many of them (distinct, and with repetitions)
+    for n in [8usize, 9, 16, 17, 33, 100] {
+        for q in [0u8, 2] {
+            let ids: Vec<u32> = (0..n).map(|i| if i % 5 == 4 { 1 } else { 1 + i as u32 }).collect();
+            add(&format!("publish-many-{n}-q{q}"), SPacket::Publish(rc::Publish { dup: false, qos: q, retain: false, topic: "m".into(), id: if q > 0 { Some(21) } else { None }, props: ids.iter().map(|i| Prop::var(11, *i)).collect(), payload: b"mm".to_vec() }));
+        }
+    }
     add("publish-nosub", SPacket::Publish(rc::Publish { dup: false, qos: 1, retain: false, topic: "z".into(), id: Some(12), props: vec![Prop::var(11, 300)], payload: vec![1, 2, 3] }));
     for (n, kind, id) in [("puback", AckKind::Puback, 2u16), ("pubrec", AckKind::Pubrec, 3), ("pubrel", AckKind::Pubrel, 11), ("pubcomp", AckKind::Pubcomp, 3), ("puback-unknown", AckKind::Puback, 999), ("pubrec-unknown", AckKind::Pubrec, 999), ("pubcomp-unknown", AckKind::Pubcomp, 999)] {
         add(&format!("{n}-2"), SPacket::Ack { kind, id, reason: 0, props: vec![], form: AckForm::Short2 });
